@@ -1,0 +1,24 @@
+//go:build verif
+
+package db
+
+import "sync/atomic"
+
+// verifPointHook is set by the /verif runtime-monitoring harness (build tag verif only) to perturb the schedule at
+// named points where two critical sections are separated by no storage operation.
+var verifPointHook atomic.Pointer[func(name string)]
+
+func verifPoint(name string) {
+	if f := verifPointHook.Load(); f != nil {
+		(*f)(name)
+	}
+}
+
+// SetVerifPointHook installs (or, with nil, removes) the hook called at verifPoint call sites.
+func SetVerifPointHook(f func(name string)) {
+	if f == nil {
+		verifPointHook.Store(nil)
+		return
+	}
+	verifPointHook.Store(&f)
+}
